@@ -2,6 +2,8 @@ package checks
 
 import (
 	"fmt"
+	"reflect"
+	"strings"
 
 	pb "github.com/google/go-tdx-guest/proto/tdx"
 	"google.golang.org/protobuf/reflect/protoreflect"
@@ -105,6 +107,18 @@ func structuralMutations(q0 *pb.QuoteV4) []msgMut {
 						copy(b, mm.Get(fd).Bytes())
 						mm.Set(fd, protoreflect.ValueOfBytes(b))
 					}})
+					if nl == 0 {
+						// present but empty: a non-nil slice of length 0 (protobuf reflection normalises an empty
+						// value to nil, so the Go field is set directly)
+						out = append(out, msgMut{name + ":empty-non-nil", func(q *pb.QuoteV4) {
+							mm, _ := p.resolve(q, true)
+							setGoBytes(mm, fd, []byte{})
+						}})
+						out = append(out, msgMut{name + ":empty-with-capacity", func(q *pb.QuoteV4) {
+							mm, _ := p.resolve(q, true)
+							setGoBytes(mm, fd, make([]byte, 0, 64))
+						}})
+					}
 				}
 			case fd.Kind() == protoreflect.Uint32Kind:
 				cur := uint32(m.Get(fd).Uint())
@@ -139,4 +153,20 @@ func structuralMutations(q0 *pb.QuoteV4) []msgMut {
 	}
 	walk(nil, q0.ProtoReflect())
 	return out
+}
+
+// setGoBytes assigns b to the Go struct field behind fd without protobuf's empty-to-nil normalisation.
+func setGoBytes(mm protoreflect.Message, fd protoreflect.FieldDescriptor, b []byte) {
+	parts := strings.Split(string(fd.Name()), "_")
+	for i, p := range parts {
+		if p != "" {
+			parts[i] = strings.ToUpper(p[:1]) + p[1:]
+		}
+	}
+	v := reflect.ValueOf(mm.Interface()).Elem().FieldByName(strings.Join(parts, ""))
+	if v.IsValid() && v.CanSet() && v.Kind() == reflect.Slice {
+		v.SetBytes(b)
+	} else {
+		panic("harness: no Go field for " + string(fd.FullName()))
+	}
 }
